@@ -174,4 +174,52 @@ theorem aad_eq_spec (alg : Int) (kid piv : Bytes) :
   simp only [M.Oscore.prepareAad, aad, encStructure, M.Oscore.putArray, M.Oscore.putBytes, M.Oscore.putText, cborArray, cborBstr, cborTstr, (orFirst_eq _).1,
     (orFirst_eq _).2.1, (orFirst_eq _).2.2.1, labelEncrypt0, List.append_assoc]
 
+theorem leftPad_length (k : Nat) (b : Bytes) (h : b.length ≤ k) : (leftPad k b).length = k := by
+  simp [leftPad]; omega
+
+/-- The nonce determines kid and Partial IV (the link to C15's "no nonce reuse"): two nonces built
+from the same Common IV are equal only if the kids are equal and — PARTIAL: for Partial IVs of the
+same length — the Partial IVs are equal.  Full statement (Partial IVs as minimal-length encodings
+`pivBytes seq`, `pivBytes seq'` of sequence numbers below 2^40, possibly of different lengths):
+  (seq ≠ seq' ∨ kid ≠ kid') → nonce civ kid (pivBytes seq) ≠ nonce civ kid' (pivBytes seq'). -/
+theorem nonce_injective_partial (civ kid kid' piv piv' : Bytes) (hk : kid.length ≤ 7) (hk' : kid'.length ≤ 7)
+    (hp : piv.length = piv'.length) (hp5 : piv.length ≤ 5)
+    (h : nonce civ kid piv = nonce civ kid' piv') : kid = kid' ∧ piv = piv' := by
+  have h0 := xorKs_inj _ _ _ h
+  unfold noncePlain at h0
+  injection h0 with hlen hrest
+  have hl : kid.length = kid'.length := by
+    have := congrArg UInt8.toNat hlen
+    rw [UInt8.toNat_ofNat', UInt8.toNat_ofNat'] at this
+    omega
+  have hp5' : piv'.length ≤ 5 := by omega
+  have := List.append_inj hrest (by rw [leftPad_length 7 kid hk, leftPad_length 7 kid' hk'])
+  obtain ⟨ha, hb⟩ := this
+  unfold leftPad at ha hb
+  rw [hl] at ha
+  rw [hp] at hb
+  exact ⟨List.append_cancel_left ha, List.append_cancel_left hb⟩
+
+/-! ### Non-vacuity: concrete instances of the hypotheses -/
+
+example : (pivBytes 20).length ≤ 5 ∧ (pivBytes (2 ^ 40 - 2)).length ≤ 5 ∧ 2 ^ 40 - 2 ≤ maxSeq := by decide
+
+example : (optEncode ⟨pivBytes 20, some [0x37, 0xcb], some [0x01]⟩).length ≤ 255 := by decide
+
+example : optDecode (optEncode ⟨[0x14], none, some []⟩) = some ⟨[0x14], none, some []⟩ := by decide
+
+/-- a client context and the server's mirror image match -/
+example : Matching ⟨[], [1], none, 10, [1, 2], [3, 4], [5]⟩ ⟨[1], [], none, 10, [3, 4], [1, 2], [5]⟩ :=
+  ⟨rfl, rfl, rfl, rfl, rfl⟩
+
+/-- `hplain` of `unprotect_protect_partial` on the RFC 8613 C.4 request (GET, Uri-Host outer, Uri-Path "tv1" inner) -/
+example : decPlain (encPlain 1 (innerOpts true [(3, [0x6c]), (11, [0x74, 0x76, 0x31])]) []) =
+    some (1, innerOpts true [(3, [0x6c]), (11, [0x74, 0x76, 0x31])], []) := by decide
+
+example : ([(3, [0x6c]), (11, [0x74, 0x76, 0x31])] : List Opt).Pairwise (fun a b => a.1 ≤ b.1) := by decide
+
+/-- inner / outer split of a request with Observe, Uri-Host, Uri-Path, Max-Age, Proxy-Scheme -/
+example : outerOpts [(3, [1]), (6, []), (11, [2]), (14, [3]), (39, [4])] = [(3, [1]), (6, []), (39, [4])] ∧
+    innerOpts true [(3, [1]), (6, []), (11, [2]), (14, [3]), (39, [4])] = [(6, []), (11, [2]), (14, [3])] := by decide
+
 end Coap.C14
